@@ -1,5 +1,6 @@
 import Model.Train
 import Proofs.OptimizerLemmas
+import Proofs.ParamCount
 
 /-!
 # C10 — feedback blocks keep their repeated layers weight-tied
@@ -13,7 +14,7 @@ from its point of view); accumulations add / subtract / multiply / mean.
 set_option linter.unusedSectionVars false
 
 namespace C10
-open Feedback Scalar
+open Feedback Scalar ParamCount
 
 variable {α : Type} [Scalar α]
 
@@ -372,6 +373,109 @@ theorem parameters_first_repetition (f : Feedback α) :
 theorem coupled_length_after_create (layers : List (InnerLayer α)) (loops : Nat) (i o : Bool) (acc : Accumulation)
     (f : Feedback α) (h : Feedback.create layers loops i o acc = .ok f) : f.coupled.length = layers.length := by
   rw [(create_tied layers loops i o acc f h).2.1]; simp
+
+/-! ### … and that count is the number of scalars the layers of one repetition actually hold -/
+
+/-- the scalars a layer actually holds: every kernel entry, every weight, every bias entry -/
+def heldScalars : InnerLayer α → Nat
+  | .dense d => (match d.weights.data with | .double m => (m.map List.length).sum | _ => 0)
+      + (match d.bias with | some b => (match b.data with | .single v => v.length | _ => 0) | none => 0)
+  | .conv l => kernelScalars l.kernels
+  | .deconv l => kernelScalars l.kernels
+  | .maxpool _ => 0
+
+/-- a layer as the constructors make it: `filters` kernels of one extent `c × h × w` (all positive) for a spatial layer;
+    an `o × i` weight matrix and, if present, a bias of `o` entries for a dense layer -/
+def WellFormed : InnerLayer α → Prop
+  | .dense d => ∃ i o m, d.inputs = .single i ∧ d.outputs = .single o ∧ d.weights.data = .double m ∧ m.length = o ∧
+      (∀ r ∈ m, r.length = i) ∧ ∀ b, d.bias = some b → ∃ v, b.data = .single v ∧ v.length = o
+  | .conv l => l.kernels ≠ [] ∧ ∃ c h w, 0 < c ∧ 0 < h ∧ ∀ k ∈ l.kernels, ∃ v, k.data = .triple v ∧ IsBox c h w v
+  | .deconv l => l.kernels ≠ [] ∧ ∃ c h w, 0 < c ∧ 0 < h ∧ ∀ k ∈ l.kernels, ∃ v, k.data = .triple v ∧ IsBox c h w v
+  | .maxpool _ => True
+
+theorem conv_count (l : Conv α) (hne : l.kernels ≠ []) (c h w : Nat) (hc : 0 < c) (hh : 0 < h)
+    (hk : ∀ k ∈ l.kernels, ∃ v, k.data = .triple v ∧ IsBox c h w v) : l.parameters = kernelScalars l.kernels := by
+  unfold Conv.parameters
+  rw [kernelScalars_box c h w l.kernels hk]
+  congr 1
+  split
+  · rename_i k rest heq
+    obtain ⟨v, hv, hb⟩ := hk k (by rw [heq]; simp)
+    obtain ⟨r, m, cs, rfl, h1, h2, h3⟩ := box_nonempty c h w hc hh v hb
+    simp only [hv]
+    rw [h1, h2, h3, Nat.mul_assoc]
+  · rename_i heq; exact absurd heq hne
+
+theorem deconv_count (l : Deconv α) (hne : l.kernels ≠ []) (c h w : Nat) (hc : 0 < c) (hh : 0 < h)
+    (hk : ∀ k ∈ l.kernels, ∃ v, k.data = .triple v ∧ IsBox c h w v) : l.parameters = kernelScalars l.kernels := by
+  unfold Deconv.parameters
+  rw [kernelScalars_box c h w l.kernels hk]
+  congr 1
+  split
+  · rename_i k rest heq
+    obtain ⟨v, hv, hb⟩ := hk k (by rw [heq]; simp)
+    obtain ⟨r, m, cs, rfl, h1, h2, h3⟩ := box_nonempty c h w hc hh v hb
+    simp only [hv]
+    rw [h1, h2, h3, Nat.mul_assoc]
+  · rename_i heq; exact absurd heq hne
+
+/-- **the count a layer reports is the number of scalars it holds** — filters × channels × height × width for a convolution
+    or deconvolution with any number of filters and channels (equal or not) and any kernel extents; `o·i (+ o)` for a
+    dense layer -/
+theorem parameters_is_heldScalars (l : InnerLayer α) (h : WellFormed l) : l.parameters = .ok (heldScalars l) := by
+  cases l with
+  | dense d =>
+    obtain ⟨i, o, m, hi, ho, hm, hlen, hrows, hb⟩ := h
+    simp only [InnerLayer.parameters, DenseLayer.parameters, hi, ho, heldScalars, hm]
+    rw [sum_map_const m _ i hrows, hlen]
+    cases hbias : d.bias with
+    | none => simp [Nat.mul_comm]
+    | some b =>
+      obtain ⟨v, hv, hvl⟩ := hb b hbias
+      simp [hv, hvl, Nat.mul_comm]
+  | conv l =>
+    obtain ⟨hne, c, hh, w, hc, hh', hk⟩ := h
+    simp only [InnerLayer.parameters, heldScalars]
+    rw [conv_count l hne c hh w hc hh' hk]
+  | deconv l =>
+    obtain ⟨hne, c, hh, w, hc, hh', hk⟩ := h
+    simp only [InnerLayer.parameters, heldScalars]
+    rw [deconv_count l hne c hh w hc hh' hk]
+  | maxpool _ => rfl
+
+theorem fold_ok (g : Except Err Nat → InnerLayer α → Except Err Nat) (ls : List (InnerLayer α))
+    (hg : ∀ a, ∀ l ∈ ls, g (.ok a) l = .ok (a + heldScalars l)) : ∀ (a : Nat),
+    ls.foldl g (.ok a) = .ok (a + (ls.map heldScalars).sum) := by
+  induction ls with
+  | nil => intro a; simp
+  | cons l t ih =>
+    intro a
+    simp only [List.foldl_cons, hg a l (by simp)]
+    rw [ih (fun a x hx => hg a x (by simp [hx]))]
+    simp [Nat.add_assoc]
+
+/-- **a block reports the scalars ONE repetition holds**, whatever the layer kinds, filter and channel counts -/
+theorem block_parameters_is_one_repetition (f : Feedback α) (hwf : ∀ l ∈ f.layers.take f.coupled.length, WellFormed l) :
+    f.parameters = .ok (((f.layers.take f.coupled.length).map heldScalars).sum) := by
+  rw [parameters_first_repetition, fold_ok _ _ _ 0]
+  · simp
+  · intro a l hl
+    simp [parameters_is_heldScalars l (hwf l hl)]
+
+/-! non-vacuity: a convolution that widens one map to two (two 1×3×3 kernels) and a deconvolution that narrows two maps back
+    to one (ONE 2×3×3 kernel: the filter count differs from the channel count) are well formed, and each holds 18 scalars -/
+example (x : α) :
+    let k1 : Tensor α := ⟨.triple 1 3 3, .triple (List.replicate 1 (List.replicate 3 (List.replicate 3 x)))⟩
+    let k2 : Tensor α := ⟨.triple 2 3 3, .triple (List.replicate 2 (List.replicate 3 (List.replicate 3 x)))⟩
+    let cv : InnerLayer α := .conv { inputs := .triple 1 4 4, outputs := .triple 2 4 4, loops := x, scale := id, kernels := [k1, k1], stride := (1, 1), padding := (1, 1), dilation := (1, 1), act := .tanh, dropout := none, flatten := false, training := false }
+    let dc : InnerLayer α := .deconv { inputs := .triple 2 4 4, outputs := .triple 1 4 4, loops := x, scale := id, kernels := [k2], stride := (1, 1), padding := (1, 1), act := .tanh, dropout := none, flatten := false, training := false }
+    WellFormed cv ∧ WellFormed dc ∧ heldScalars cv = 18 ∧ heldScalars dc = 18 := by
+  refine ⟨⟨by simp, 1, 3, 3, by decide, by decide, ?_⟩, ⟨by simp, 2, 3, 3, by decide, by decide, ?_⟩, ?_, ?_⟩
+  · intro k hk; simp at hk; subst hk; exact ⟨_, rfl, by simp [IsBox]⟩
+  · intro k hk; simp at hk; subst hk; exact ⟨_, rfl, by simp [IsBox]⟩
+  · simp [heldScalars, kernelScalars, v3count]
+  · simp [heldScalars, kernelScalars, v3count]
+
 
 /-! non-vacuity: three loops of a two-layer block -/
 example : (List.range 3).map (fun i => 1 + i * 2) = [1, 3, 5] := by decide
